@@ -6,7 +6,7 @@ COMMON_ASSUMPTIONS = [
     "oracles (reference decoders / models in harness/ref) are written from the standards and self-tested at the start of every run; "
     "a misreading of a standard shared by the encoder's author and the oracle's author would go unnoticed",
     "absence of a violation in the explored cases is not a proof of absence",
-    "the library is built and run for the host platform only (linux/amd64, 64-bit int)",
+    "the library is built and run for the host platform (linux/amd64, 64-bit int); only the deterministic round-trip parts of C01-C08 also run in a 32-bit build (GOARCH=386)",
 ]
 
 PROPS = {}
@@ -462,5 +462,13 @@ RULE_ADDENDA['C13'] += ' Sweep also: for every Aztec size x every percentage 0..
 RULE_ADDENDA['C15'] += ' Orders part also: pairs of Aztec calls whose arguments read the same without a delimiter (payload A3 / 3 % against payload A / 33 %).'
 RULE_ADDENDA['C17'] += ' RS histories append to every returned slice (now or after the next call) and hold all earlier results.'
 RULE_ADDENDA['C18'] += ' The byte-view sweep also holds 16 lengths between 2^20 and 2^25+72 bits.'
+
+# The deterministic round-trip parts once more with the library and the harness built for a 32-bit platform (GOARCH=386; the
+# binary runs natively on linux/amd64): arithmetic that silently needs a 64-bit int.
+for _pid, _tests in (("C01", ("Magic", "Sweep", "ZeroECC")), ("C02", ("Magic", "Sweep", "ZeroECC")), ("C03", ("Magic", "Sweep")), ("C04", ("Magic", "Sweep")),
+                     ("C05", ("Magic",)), ("C06", ("Magic",)), ("C07", ("Magic",)), ("C08", ("Magic",))):
+    for _t in _tests:
+        PROPS[_pid]["parts"].append({"name": _t.lower() + "-386", "kind": "plain", "test": "Test" + _pid + _t, "arch": "386"})
+    RULE_ADDENDA[_pid] += ' The deterministic parts (' + ", ".join(_tests) + ') run a second time in a 32-bit build (GOARCH=386) of library and harness.'
 for _pid, _add in RULE_ADDENDA.items():
     PROPS[_pid]["rule"] += _add
